@@ -149,6 +149,8 @@ def run_read_case(ctx, suite, s, oracle=None, case=None, nontrivial=True):
     fp = lib.stable_hash([got[0], got[1] if got[0] == 'err' else [g.number_of_nodes(), g.number_of_edges(),
                                                                     sorted(o for *_, o in g.edges(data='order') if o is not None)],
                           sum(map(s.count, '()|%'))])
+    if case.get('fault'):
+        fp = lib.stable_hash([case['fault'], s])
     ctx.count(suite, fp, nontrivial=nontrivial and len(s) > 6, sample=s)
     ctx.feature(f'{suite}:{got[0] if got[0] == "ok" else "err-" + got[1]}')
     if not ctx.oracle_only:
